@@ -55,15 +55,31 @@ class ScriptedNode(elastic_transport.BaseNode):
         return NodeApiResponse(meta, body)
 
     def perform_request(self, method, target, body=None, headers=None, request_timeout=None):
-        if method == "GET" and target == "/":
-            return self._resp(200, json.dumps({"name": "n1", "version": {"number": "8.6.1", "build_flavor": "default"}, "tagline": "You Know, for Search"}).encode())
         w = ScriptedNode.current
+        if method == "GET" and target == "/":
+            # rally's product check (first request of a client, and of every derived client: each attempt of a bulk / ignore= call starts with
+            # one). In half of the runs a pending FAULT lands on it instead of on the request it precedes; a pending "ok" is never spent on it.
+            # The transport repeats the product check on its own (it is sent without rally's max_retries=0): the fault stays for all product
+            # checks of the same call of the wrapped function and is recorded as ONE exchange.
+            nxt = w.kinds[w.consumed] if w.consumed < len(w.kinds) else w.tail
+            if w.sticky is None and not (w.faults_hit_product_check and nxt != "ok" and not nxt.startswith("items") and nxt != "badjson"):
+                return self._resp(200, json.dumps({"name": "n1", "version": {"number": "8.6.1", "build_flavor": "default"}, "tagline": "You Know, for Search"}).encode())
+            if w.sticky is None:
+                w.product_check_faults += 1
+                w.sticky = w.next_kind()
+                w.requests.append((method, "/", w.sticky, 0))
+            kind = w.sticky
+            return self._answer(kind, False, 0)
+        w.sticky = None
         kind = w.next_kind()
         head = method == "HEAD"
         ndocs = 0
         if target.split("?")[0].endswith("/_bulk") and body:
             ndocs = len([l for l in body.split(b"\n") if l.strip()]) // 2
         w.requests.append((method, target.split("?")[0], kind, ndocs))
+        return self._answer(kind, head, ndocs)
+
+    def _answer(self, kind, head, ndocs):
         if kind == "ctimeout":
             raise elastic_transport.ConnectionTimeout("Connection timed out", errors=(TimeoutError("read timed out"),))
         if kind == "cerror":
@@ -179,6 +195,7 @@ class Wire:
                 raise Abort()
             t.events.append(("call", i))
             t.calls.append((name, args, kwargs))
+            wire.sticky = None
             try:
                 res = fn(*args, **kwargs)
             except Exception as e:  # pylint: disable=broad-except
@@ -195,6 +212,10 @@ class Wire:
         self.trace = c17.Trace()
         self.env.trace = self.trace
         self.kinds, self.tail, self.consumed, self.requests = list(kinds), tail, 0, []
+        self.run_no = getattr(self, "run_no", 0) + 1
+        self.faults_hit_product_check = self.run_no % 2 == 0
+        self.product_check_faults = 0
+        self.sticky = None
         ScriptedNode.current = self
         factory = rally_client.EsClientFactory(
             hosts=[{"host": HOST, "port": PORT}],
